@@ -755,7 +755,12 @@ def check_service(ctx):
         for n in calls:
             node = g.node(n).ast
             if needs_return:
-                ctx.check(isinstance(node, ast.Return), "service/forwards-to-machine", ctx.construct(q + meth, node), "the machine's Deferred is not what the caller receives")
+                returned = isinstance(node, ast.Return)
+                if isinstance(node, ast.Assign) and len(node.targets) == 1 and isinstance(node.targets[0], ast.Name):
+                    rets = g.ids(lambda x: x.kind == "stmt" and isinstance(x.ast, ast.Return))
+                    after = [r for r in rets if g.path([n], [r], strict=True)]
+                    returned = bool(after) and all(isinstance(g.node(r).ast.value, ast.Name) and g.node(r).ast.value.id == node.targets[0].id for r in after)
+                ctx.check(returned, "service/forwards-to-machine", ctx.construct(q + meth, node), "the machine's Deferred is not what the caller receives")
                 w = g.must_pass([g.entry], [n], exc=False)
                 ctx.check(w is None, "service/forwards-to-machine", q + meth + " | always", "the call can be skipped", witness=g.describe(w))
             else:
@@ -820,6 +825,8 @@ MUTANTS = [
            expect_rule="stopped/converges-to-stopped"),
     Mutant("retry-scheduled-twice", CS, "        return s.clock.callLater(delay, c._reconnect)\n", "        s.clock.callLater(delay, c._reconnect)\n        return s.clock.callLater(delay, c._reconnect)\n",
            expect_rule="retry/delay-from-policy"),
+    Mutant("repeated-stop-answers-immediately", CS, "        super().stopService()\n        return self._machine.stop()", "        if not self.running:\n            return succeed(None)\n        super().stopService()\n        return self._machine.stop()",
+           expect_rule="service/forwards-to-machine"),
     Mutant("service-start-unguarded-double", CS, "        super().startService()\n        self._machine.start()\n", "        super().startService()\n", expect_rule="service/forwards-to-machine"),
 ]
 SILENT = [
@@ -833,5 +840,6 @@ SILENT = [
            more=[(CS, "        s.failedAttempts += 1\n        delay = s.timeoutForAttempt(s.failedAttempts)\n", "        delay = s.timeoutForAttempt(countFailure(s))\n")]),
     Silent("increment-through-a-local", CS, "        s.failedAttempts += 1\n        delay = s.timeoutForAttempt(s.failedAttempts)\n",
            "        nth = s.failedAttempts + 1\n        s.failedAttempts = nth\n        delay = s.timeoutForAttempt(nth)\n"),
+    Silent("stop-service-local-for-deferred", CS, "        super().stopService()\n        return self._machine.stop()", "        super().stopService()\n        stopped = self._machine.stop()\n        return stopped"),
     Silent("failure-limit-rewritten", CS, "            elif remaining <= 1:\n", "            elif not remaining > 1:\n"),
 ]
